@@ -374,6 +374,7 @@ func init() {
 		return []Adapter{
 			dhcpCircuitAdapter(dcHome("3clients.2circuits", []int{1, 1, 2}, 2)),
 			dhcpCircuitAdapter(dcRoam("2clients.2circuits", 2, 2)),
+			dhcpCircuitAdapter(dcHome("4clients.3circuits", []int{1, 1, 2, 3}, 3)),
 		}
 	})
 	extraLargeCatalogue = append(extraLargeCatalogue, func(int) []Adapter {
